@@ -817,7 +817,7 @@ class Tracer:
         return outs
 
     # ------------------------------------------------------------------------------------------
-    def _resolve(self, call, fi, fval, argvals=None):
+    def _resolve(self, call, fi, fval, argvals=None, path=None):
         """FuncInfo to inline for this call or None"""
         f = call.func
         if fval is not None and fval.closure is not None:
@@ -847,6 +847,19 @@ class Tracer:
                 if isinstance(rv, ast.Name) and rv.id == 'self' and self._root_cls is not None:
                     r = 'self'
                     cls = self._root_cls
+                elif path is not None and f.attr.startswith('_') and not f.attr.startswith('__'):
+                    # a private method called on a value that the path has established to be an instance of a repo class
+                    # (`while isinstance(x, C): x = x._helper()`): the class's own implementation, unless a subclass overrides it
+                    rt = norm(rv)
+                    if isinstance(rv, ast.Call) and isinstance(rv.func, ast.Name) and rv.func.id == 'carried' and len(rv.args) == 1:
+                        rt = norm(rv.args[0])       # the loop test was evaluated on the value at loop entry
+                    for t_, pol in path.facts:
+                        if pol and t_.startswith('isinstance(%s, ' % rt) and t_.endswith(')'):
+                            cname = t_[len('isinstance(%s, ' % rt):-1]
+                            if cname in self.repo.classes:
+                                tm = self.repo.resolve(cname, f.attr, ayns=via)
+                                if tm is not None and not self._overridden_below(cname, f.attr, via, tm) and not tm.is_static and not tm.is_classmethod:
+                                    return tm, 0, None
             if r in ('self', 'cls') and cls:
                 t = self.repo.resolve(cls, f.attr, ayns=via)
                 if t is not None and f.attr not in self.inline_extra and t.qualname not in self.inline_extra and self._overridden_below(cls, f.attr, via, t):
@@ -922,7 +935,7 @@ class Tracer:
         attr = f.attr if isinstance(f, ast.Attribute) else (f.id if isinstance(f, ast.Name) else None)
         if isinstance(f, ast.Name) and fv is not None and isinstance(callee_ast, ast.Attribute):
             attr = callee_ast.attr      # called through a local that holds `X.method`: the event is about the method
-        target = self._resolve(e, fi, fv, args)
+        target = self._resolve(e, fi, fv, args, p)
         name = attr
         inline = False
         if target is not None and target[0] is not None:
